@@ -50,7 +50,7 @@ def cmpVal : (τ : Ty) → Val τ → Val τ → Ordering
   | .bmap k v, l1, l2 => cmpList (cmpPair (cmpVal k) (cmpVal v)) l1 l2
   | .hset _, _, _ | .hmap _ _, _, _ | .vclock, _, _ | .choices _, _, _ => .eq
 
-def leVal (τ : Ty) (a b : Val τ) : Bool := cmpVal τ a b == .lt
+def leVal (τ : Ty) (a b : Val τ) : Bool := cmpVal τ a b != .gt
 
 /-! ### collecting into the crate's / std's collections (`FromIterator`) -/
 
@@ -159,7 +159,7 @@ def representative {s m t r hist : Ty} (st : St s m t r hist) : Option (St s m t
 
 /-- the list `ys` of length `π.length` with `ys[π[i]] = xs[i]` -/
 def place {α} (π : List Nat) (xs : List α) : Option (List α) :=
-  (List.range π.length).mapM fun j => (π.idxOf? j).bind fun i => xs[i]?
+  (List.range π.length).mapM fun j => if j ∈ π then xs[π.idxOf j]? else none
 
 /-- actor `i` (state, timers, pending choices, crash flag) moves to position `π i`; every `Id` inside actor
 states, envelopes (src, dst, payload), choices and history becomes `π id`.  `rwTimers` says whether ids inside
